@@ -147,7 +147,18 @@ Section Proofs.
     destruct (parse (SFile p)); cbn [negb]; [|left; eauto].
     destruct (analyse (SFile p) (known (reset_interactive [] s))) as [pr|]; [|left; eauto].
     destruct (eval_program_shape pr (push (SFile p) pr (reset_interactive [] s))) as [fs [ok E]].
-    rewrite E. right. exists pr, fs. destruct ok; eauto.
+    rewrite E. destruct ok.
+    - right. exists pr, fs, ROk. split; reflexivity.
+    - left. exists REval. rewrite pop_push. split; reflexivity.
+  Qed.
+
+  (* a rejected load (missing file / parse error, analysis, evaluation) pushes nothing: all
+     that is left of it is that the interactive definitions were dropped first *)
+  Lemma rejected_load_l : forall p (s : state), snd (load p s) <> ROk -> fst (load p s) = reset_interactive [] s.
+  Proof.
+    intros p s H. destruct (load_cases p s) as [[r [E _]]|[pr [fs [r [E Hr]]]]]; rewrite E in *; simpl in *.
+    - reflexivity.
+    - destruct r; simpl in Hr; try discriminate. congruence.
   Qed.
 
   Lemma load_reset : forall p (s : state), wf s -> load p (reset_interactive [] s) = load p s.
@@ -383,6 +394,14 @@ Section Proofs.
     destruct (define t (run cs)) as [s' r] eqn:E. simpl in *. subst r.
     destruct (define_ok_base t (run cs) s' E) as [A B].
     rewrite pop_cases, A, B. apply reset_noop; auto.
+  Qed.
+
+  (* a rejected load in a reachable state without interactive definitions changes nothing *)
+  Lemma rejected_load_noop_l : forall cs p, has_interactive (run cs) = false ->
+    snd (load p (run cs)) <> ROk -> fst (load p (run cs)) = run cs.
+  Proof.
+    intros cs p Hi H. pose proof (Replay_wf _ _ (Replay_live cs)) as W.
+    rewrite rejected_load_l by exact H. apply reset_noop; auto.
   Qed.
 
   (* in general a pop after a successful define drops ALL interactive definitions *)
